@@ -42,6 +42,12 @@ def cases_for(ctx):
     for _ in range(20 if quick else 300):
         k += 1
         cases.append(("m%d" % k, R.case_mempool(r.fork())))
+    for _ in range(10 if quick else 150):
+        k += 1
+        cases.append(("s%d" % k, R.case_mempool_stale(r.fork())))
+    for _ in range(10 if quick else 150):
+        k += 1
+        cases.append(("p%d" % k, R.case_pubdata(r.fork())))
     return cases
 
 
